@@ -281,7 +281,10 @@ contract(
         "for (hexvs, glyphMapping) in uvsMapping.items()": Loop(
             index="i", seq="VS",
             invariants={
-                "done": f"all(int_hex(VS[a]) in uvsDict and uvs_list_of(uvsDict[int_hex(VS[a])], uvsMapping[VS[a]], {_M}) for a in range(i))",
+                # (one fact per invariant: keys present / list lengths / list entries)
+                "done-keys": "all(int_hex(VS[a]) in uvsDict for a in range(i))",
+                "done-len": "all(len(uvsDict[int_hex(VS[a])]) == len(list(uvsMapping[VS[a]])) for a in range(i))",
+                "done": f"all(all(uvsDict[int_hex(VS[a])][b] == uvs_entry_of(list(uvsMapping[VS[a]])[b], uvsMapping[VS[a]], {_M}) for b in range(len(list(uvsMapping[VS[a]])))) for a in range(i))",
                 # ghost wv: selector key -> position of the declared selector that produced it
                 "only": "all(k in wv and 0 <= wv[k] and wv[k] < i and int_hex(VS[wv[k]]) == k for k in uvsDict)",
             },
